@@ -46,7 +46,22 @@ def t_flat_list(v):
   return pg.List([pg.Dict(a=v[0]), pg.Dict(a=v[1]), pg.Dict(a=v[2]), pg.Dict(a=v[3])])
 
 
-SKELETONS = dict(list=t_list, dict=t_dict, obj=t_obj, mixed=t_mixed, flat=t_flat_list)
+EXTERNAL = {}       # id(root) -> another tree that the root refers to (pg.Ref targets); checked together with the root
+
+
+def t_inferred(v):
+  """Values that are *inferred*: a pg.Ref to a node of another tree and ValueFromParentChain placeholders resolving to a
+  node of an ancestor. The stored value is the placeholder; reading the key yields a node that lives elsewhere."""
+  ext = pg.Dict(target=pg.Dict(t=v[0], deep=pg.Dict(u=v[1])))
+  root = pg.Dict(x=pg.Dict(p=v[2], q=pg.List([pg.Dict(qq=v[3])])),
+                 child=pg.Dict(x=pg.symbolic.ValueFromParentChain(), r=pg.Ref(ext.target), own=pg.Dict(o=v[0])),
+                 lst=pg.List([pg.Ref(ext.target), pg.Dict(x=pg.symbolic.ValueFromParentChain())]))
+  EXTERNAL.clear()
+  EXTERNAL[id(root)] = ext
+  return root
+
+
+SKELETONS = dict(list=t_list, dict=t_dict, obj=t_obj, mixed=t_mixed, flat=t_flat_list, inferred=t_inferred)
 
 
 def nodes_of(root):
@@ -84,6 +99,10 @@ def inv(root, tag='inv'):
   walk(root, root.sym_parent, root_path)
   if bad:
     return bad[0]
+  if id(root) in EXTERNAL:
+    r = inv(EXTERNAL[id(root)])
+    if r is not None:
+      return ('referenced_tree:' + r[0], r[1])
   # lookup of every reported path from the root returns that very node
   for n in nodes_of(root):
     rel = n.sym_path - root_path if len(root_path) else n.sym_path
